@@ -31,7 +31,15 @@ def showToks (xs : List String) : String := if xs.isEmpty then "_" else joinWith
 def parseAlph (s : String) : Option (Bool × List String) :=
   if s.startsWith "L:" then some (true, toks (s.drop 2).toString)
   else if s.startsWith "G:" then some (false, toks (s.drop 2).toString)
+  else if s.startsWith "R:" then
+    -- `R:count:mod:a:b` — the integer symbols `i((a*j+b) mod mod)` for `j < count` (large generic alphabets)
+    match ((s.drop 2).toString.splitOn ":").mapM String.toNat? with
+    | some [count, md, a, b] => some (false, (List.range count).map fun j => "i" ++ toString ((a * j + b) % md))
+    | _ => none
   else none
+
+/-- An index token is `<int>` (Python int) or `<int>:<numpy dtype>`; all integer types index alike. -/
+def parseIdx (s : String) : Option Int := ((s.splitOn ":").head?).bind String.toInt?
 
 def nats? (xs : List String) : Option (List Nat) := xs.mapM String.toNat?
 def showE (r : Except Err String) : String := showResult r
@@ -160,11 +168,11 @@ def step (st : State) (line : String) : State × String :=
     | some s => pure s!"ok {s.isValid}"
     | none => pure "ERR:noreg"
   | ["s_get", i, idx] =>
-    match i.toNat?.bind (st.regs[·]?), idx.toInt? with
+    match i.toNat?.bind (st.regs[·]?), parseIdx idx with
     | some s, some k => pure (showE (s.getItem k))
     | _, _ => pure "ERR:noreg"
   | ["s_set", i, idx, sym] =>
-    match i.toNat?, idx.toInt? with
+    match i.toNat?, parseIdx idx with
     | some r, some k =>
       match st.regs[r]? with
       | some s =>
